@@ -501,7 +501,11 @@ func genSpec(seed uint64, worker, run int, tier string) (*Spec, *Rng, faultSet) 
 		// confuses the two)
 		src := s.Pool[r.Intn(len(s.Pool))]
 		sib := *cloneRecipe(&src)
-		switch r.Intn(5) {
+		variant := r.Intn(5)
+		if src.Kind == "Circle" && r.Chance(0.6) {
+			variant = 2 // the step count is the circle's own configuration dimension
+		}
+		switch variant {
 		case 0:
 			if sib.Via == "parse" {
 				sib.Via = "ctor"
@@ -527,6 +531,7 @@ func genSpec(seed uint64, worker, run int, tier string) (*Spec, *Rng, faultSet) 
 		if sib.Via != "share" {
 			s.Pool = append(s.Pool, sib)
 			n = len(s.Pool)
+			s.Siblings = true
 		}
 	}
 	if r.Chance(0.15) {
@@ -762,6 +767,7 @@ func (g *gen) duel(s *Spec) {
 			}
 		}
 		s.Pool = append(s.Pool, sib)
+		s.Siblings = true
 		h2 = len(s.Pool) - 1
 	} else {
 		for k := 0; k < 8; k++ {
